@@ -115,15 +115,15 @@ var c07Pairs = []pairCase{
 		B: "JSIGHT 0.3\nENUM @e2\n[2]\nENUM @e1\n[1]\n"},
 }
 
-// keyF42: the text between a schema body and the next directive is read by the
+// keyF44: the text between a schema body and the next directive is read by the
 // schema library, whose comment rules differ from the scanner's.
-const keyF42 = "hash-comment-after-body-read-by-schema-library"
+const keyF44 = "hash-comment-after-body-read-by-schema-library"
 
 var c05Pairs = []pairCase{
-	{Name: "F42-bare-hash-after-body-swallows-next-line", Key: keyF42,
+	{Name: "F44-bare-hash-after-body-swallows-next-line", Key: keyF44,
 		A: "JSIGHT 0.3\nURL /p/{a}\n  Path\n    {\n      \"a\": \"s\"\n    }\n  GET\n",
 		B: "JSIGHT 0.3\nURL /p/{a}\n  Path\n    {\n      \"a\": \"s\"\n    }\n  #\n  GET\n"},
-	{Name: "F42-double-hash-after-body-rejected", Key: keyF42,
+	{Name: "F44-double-hash-after-body-rejected", Key: keyF44,
 		A: "JSIGHT 0.3\nURL /p/{a}\n  Path\n    {\n      \"a\": \"s\"\n    }\n  GET\n",
 		B: "JSIGHT 0.3\nURL /p/{a}\n  Path\n    {\n      \"a\": \"s\"\n    }\n  ## x\n  GET\n"},
 	{Name: "hash-comment-with-text-after-body", // must keep working
